@@ -61,6 +61,22 @@ def main():
                         if kind == 'ok':
                             conf.append([repr(val), bool(is_subtype(get_pedal_type_from_value(val), t))])
             rec['conformance'] = conf
+            # every sample pair through the analysis as well (an empty list or tuple is typed differently from a filled one)
+            per = []
+            for va in SAMPLES[a]:
+                for vb in SAMPLES[b]:
+                    if (va, vb) == (SAMPLES[a][0], SAMPLES[b][0]):
+                        continue
+                    kind, val = live('x %s y' % SYMS[op], {'x': eval(va), 'y': eval(vb)})
+                    try:
+                        r3, inc3, t3 = analyse('a = %s\nb = %s\nr = a %s b\n' % (va, vb, SYMS[op]))
+                        ok3 = None if (inc3 or kind != 'ok' or t3 is None or not hasattr(t3, 'is_subtype')) else \
+                            bool(is_subtype(get_pedal_type_from_value(val), t3))
+                        per.append({'a': va, 'b': vb, 'live': kind, 'incompatible': inc3, 'type': None if t3 is None else type(t3).__name__,
+                                    'conforms': ok3})
+                    except Exception as e:
+                        per.append({'a': va, 'b': vb, 'raised': type(e).__name__ + ': ' + str(e)[:100]})
+            rec['per_sample'] = per
             # the same operator through an augmented assignment:  r = A ; r OP= b
             if op in ('Add', 'Sub', 'Mult', 'Div', 'FloorDiv', 'Mod', 'Pow', 'LShift', 'RShift', 'BitOr', 'BitXor', 'BitAnd'):
                 code2 = 'r = %s\nb = %s\nr %s= b\n' % (SAMPLES[a][0], SAMPLES[b][0], SYMS[op])
